@@ -508,8 +508,20 @@ class Objective(_ExprMixin, oi.Objective):
         self._direction = direction
         self._problem = problem
         e = LinExpr.of(expression)
-        self._expression = e.copy() if e is expression else e
+        self._expression = e.copy() if e is expression else e      # the LP's objective row (always current)
+        self._shown = None              # optlang.glpk_interface caches .expression and refreshes it only after
+        self._expression_expired = False  # set_linear_coefficients; a removed variable stays in the cached text
         self._name = str(uuid.uuid1()) if name is None else name
+
+    def _get_expression(self):
+        if self._shown is None or (self._problem is not None and self._expression_expired):
+            self._shown = self._expression.copy()
+            self._expression_expired = False
+        return self._shown
+
+    @property
+    def expression(self):
+        return self._get_expression()
 
     @property
     def value(self):
@@ -537,6 +549,7 @@ class Objective(_ExprMixin, oi.Objective):
             if not isinstance(co, SymReal):
                 co = float(co)
             self._expression.set_coef(v, co)
+        self._expression_expired = True
 
     def __eq__(self, other):
         if isinstance(other, oi.Objective):
@@ -555,17 +568,20 @@ class Objective(_ExprMixin, oi.Objective):
 
     def __iadd__(self, other):
         self._problem = None
-        self._expression = self._expression + other
+        self._expression = self.expression + other
+        self._shown = None
         return self
 
     def __isub__(self, other):
         self._problem = None
-        self._expression = self._expression - other
+        self._expression = self.expression - other
+        self._shown = None
         return self
 
     def __imul__(self, other):
         self._problem = None
-        self._expression = self._expression * other
+        self._expression = self.expression * other
+        self._shown = None
         return self
 
     def __str__(self):
@@ -673,6 +689,21 @@ class Model(oi.Model):
     @property
     def is_integer(self):
         return any(v._type in ("integer", "binary") for v in self._variables)
+
+    @property
+    def objective(self):
+        return self._objective
+
+    @objective.setter
+    def objective(self, value):
+        # optlang.interface.Model.objective.fset adds variables of the expression that are not in the
+        # problem (this is how a stale expression brings removed variables back) - reuse it
+        value._problem = None
+        shown = value.expression
+        value._expression = shown.copy()
+        value._shown = shown
+        value._expression_expired = False
+        oi.Model.objective.fset(self, value)
 
     # solution access --------------------------------------------------------------------------
     def _sol_get(self, kind, obj):
